@@ -141,8 +141,11 @@ class C20(Monitor):
         before = deep(live.state)
         if live.state.excluding:
             stats["live_state_mid_episode"] += 1
+        # the twin is a clone of the LIVE handlers object (with whatever it keeps beside the state), not a freshly built one:
+        # "the same command sequence the live queuing hooks would send"
+        live.arc.undo()
         sp = StreamProcessor(io.BytesIO(b""), live.handlers)
-        twin = GcodeHandlers(copy.deepcopy(live.state), live.logger)
+        twin = copy.deepcopy(live.handlers)
         comm = FakeComm(False)
         eol = case["eol"]
         seen_eol = False
